@@ -360,8 +360,10 @@ class Check:
             "wall_s": round(time.time() - self.t0, 2),
             "violations": violations,
         }
-        os.makedirs(os.path.join(VERIF, "evidence"), exist_ok=True)
-        path = os.path.join(VERIF, "evidence", f"{self.prop}.json")
+        # evidence/ holds runs against /repo itself; runs against another tree (VERIF_REPO) go to .scratch/
+        evdir = os.path.join(VERIF, "evidence") if os.path.realpath(REPO) == "/repo" else os.path.join(VERIF, ".scratch", "evidence-other-tree")
+        os.makedirs(evdir, exist_ok=True)
+        path = os.path.join(evdir, f"{self.prop}.json")
         with open(path + ".tmp", "w") as f:
             json.dump(ev, f, indent=1, default=repr)
         os.replace(path + ".tmp", path)
